@@ -212,6 +212,7 @@ pub fn gen_case(env: &Env, src: &mut Src<'_>) -> GenCase {
         timeout: Duration::from_secs(if empty_shard { 4 } else { 120 }),
         tamper: None,
         more_tampers: vec![],
+        grace_after_other_failure: None,
         stop_on_error_of: 0b111,
     };
     GenCase { rows, cfg, labels }
